@@ -199,6 +199,17 @@ func runC18(r *R) {
 		r.Check(okCancel, "C18-R3", fn, "defer cancel()", fn.Pos(), "remaining requests are cancelled on return", "outstanding remote requests are not cancelled")
 	}
 
+	// ---- R5
+	r.Rule("C18-R5", "PortableDataHash (the verifier): tokeniser ≡ ` ?[^ ]*` and block-locator reducer ≡ ^ [0-9a-f]{32}\\+\\d+ — every byte of the received manifest is hashed except hints after hash+size", 2)
+	if lit, ok := r.W.GlobalRegexLiteral(arv + ".tokRe"); !ok {
+		r.addS("C18-R5", arv+".tokRe", "regex literal", "-", Undecided, "initialiser not found")
+	} else {
+		r.addS("C18-R5", arv+".tokRe", "regex literal", "-", okIf(regexCanon(lit) == regexCanon(` ?[^ ]*`)), "tokeniser ≡ ` ?[^ ]*`: every byte of the manifest (including bare and trailing spaces) belongs to a token and is hashed; literal "+lit)
+	}
+	if lit, ok := r.W.GlobalRegexLiteral(arv + ".blkRe"); ok {
+		r.addS("C18-R5", arv+".blkRe", "regex literal", "-", okIf(regexCanon(lit) == regexCanon(`^ [0-9a-f]{32}\+\d+`)), "literal "+lit)
+	}
+
 	// ---- R4
 	r.Rule("C18-R4", "legacy rewriteSignatures: the rewritten body is returned only when computedHash == expectHash and expectHash is empty or equals the record's portable_data_hash; fetchRemoteCollectionByPDH forwards only verified responses", 2)
 	if fn := r.NeedFn("C18-R4", ctl+".rewriteSignatures"); fn != nil {
